@@ -575,10 +575,11 @@ fn build_transition_table<G: GapParameters, H: BaseSpecificHopParameters>(
         hop_params.prob_hop_y_with_base(b'G'),
         hop_params.prob_hop_y_with_base(b'T'),
     ]) - LogProb(4.0);
-    let match_same =
-        LogProb::ln_sum_exp(&[prob_gap_y, prob_gap_x, prob_hop_x, prob_hop_y]).ln_one_minus_exp();
-    let match_other =
-        LogProb::ln_sum_exp(&[prob_gap_y, prob_gap_x, prob_hop_x, prob_hop_y]).ln_one_minus_exp();
+    // the sum is computed with an approximate exp and may exceed 1.0 by a rounding error
+    let match_same = LogProb::ln_sum_exp(&[prob_gap_y, prob_gap_x, prob_hop_x, prob_hop_y])
+        .cap_numerical_overshoot(0.0001)
+        .ln_one_minus_exp();
+    let match_other = match_same;
     MATCH_SAME_.iter().for_each(|(a, b)| {
         transition_probs.insert(*a >> *b, match_same);
     });
